@@ -27,7 +27,7 @@ COMBOS = [(e, b) for e in ENVS for b in BACKENDS]   # 33; unsupported ones are
 
 
 def plan(prop, tier):
-  return len(COMBOS) * (1 if tier == 'quick' else 6)
+  return len(COMBOS) * (1 if tier == 'quick' else 4)
 
 
 def worker_class(prop, tier, run):
